@@ -11,10 +11,7 @@ Fixpoint wf (r : rope) : Prop :=
   | Tiled u c => wf u /\ 2 <= c /\ 0 < rlen u /\ rlen u * c <= MAX_BINARY_SIZE
   end.
 
-(* first index >= off of b in l, as a plain list function *)
-Definition find_from (b : Z) (l : list Z) (off : Z) : option Z :=
-  if Z.of_nat (length l) <=? off then None
-  else option_map (fun p => p + off) (list_find b (skipn (Z.to_nat off) l)).
+(* find_from (first index >= off of b in l, as a plain list function) is defined in Rope.v *)
 
 (* ------------------------------------------------------------------ *)
 (* Generic list helpers (nat-indexed)                                  *)
